@@ -1033,7 +1033,7 @@ func (client *client) publishHandler(pub *packets.Publish) *codes.Error {
 
 	if pub.Retain {
 		if len(pub.Payload) == 0 {
-			srv.retainedDB.Remove(string(pub.TopicName))
+			srv.retainedDB.Remove(msg.Topic)
 		} else {
 			srv.retainedDB.AddOrReplace(msg.Copy())
 		}
